@@ -42,7 +42,7 @@ CLAIMED = {
         ref="DESIGN.md section 4 C18",
         note="The user error coercer returns normally; bytes are opaque non-str values; 'locations lie inside the query text' is not decided (absent C parser)."),
     'C01': dict(
-        text="collect_fields and collect_subfields are proved equal to the CollectFields algorithm of GraphQL 6.3.2 (accumulator form: @skip/@include outcome first, response key = alias or name, first-appearance order, inline fragments / spreads under their type condition, each named fragment once per grouped set) by a loop invariant and the recursive callee contract; should_include_node and does_fragment_condition_match against their clauses; execute_operation (executor choice, root collection), execute_fields_serially (one await per key in order, ordered result map), execute_fields (one resolve_field coroutine per collected key, gathered with return_exceptions, result map pointwise equal to the awaited outcomes in key order, every failure re-raised as one MultipleException), complete_value_catching_error and get_output_coercer (output chain = CompleteValue for the declared type); resolve_field (one ResolveInfo, the resolver stage once with the parent value, completion once against the DECLARED type with the baked coercer), get_type_resolver (field-level over type-level over schema default), ensure_valid_runtime_type (only a possible OBJECT type is accepted), abstract_coercer (type resolver asked once, runtime type's hooks once, completed as that object type), resolver_executor.",
+        text="collect_fields and collect_subfields are proved equal to the CollectFields algorithm of GraphQL 6.3.2 (accumulator form: @skip/@include outcome first, response key = alias or name, first-appearance order, inline fragments / spreads under their type condition, each named fragment once per grouped set) by a loop invariant and the recursive callee contract; should_include_node and does_fragment_condition_match against their clauses; execute_operation (executor choice, root collection), execute_fields_serially (one await per key in order, ordered result map), execute_fields (one resolve_field coroutine per collected key, gathered with return_exceptions, result map pairs every key with its own awaited outcome and keeps any two keys in their collection order (first-appearance order, proved for arbitrary positions i0 < j0), every failure re-raised as one MultipleException), complete_value_catching_error and get_output_coercer (output chain = CompleteValue for the declared type); resolve_field (one ResolveInfo, the resolver stage once with the parent value, completion once against the DECLARED type with the baked coercer), get_type_resolver (field-level over type-level over schema default), ensure_valid_runtime_type (only a possible OBJECT type is accepted), abstract_coercer (type resolver asked once, runtime type's hooks once, completed as that object type), resolver_executor.",
         ref="DESIGN.md section 4 C01",
         note="Not under contract in this revision: default_field_resolver / default_type_resolver (dynamic getattr), object_coercer / complete_object_value (named by the abstract ObjConf), build_resolve_info. Termination of fragment recursion is not verified. User resolvers and hooks are opaque."),
     'C09': dict(
